@@ -9,6 +9,8 @@ def outcome(fn, *a, **k):
         return ("ok", fn(*a, **k))
     except Exception as e:  # noqa: BLE001 - every exception of the code under test is an outcome
         return ("exc", "%s: %s" % (type(e).__name__, str(e)[:200]))
+    except SystemExit as e:  # a command-line program that exits (argparse error, sys.exit) has also produced an outcome
+        return ("exc", "SystemExit: %s" % (e.code,))
 
 
 def bits(x):
